@@ -149,6 +149,9 @@ def cases(tier, seed, i, n):
             for an in A:
                 for bn in B:
                     yield dict(z=z, a=an, b=bn, via='connect')
+                    if 'ckw' not in A[an] and 'ckw' not in B[bn] and (len(an) + len(bn)) % 2 == 0:
+                        # the same pair, every connection made by iterating the object (`for event in ws:`)
+                        yield dict(z=z, a=an, b=bn, via='iter')
                     if (len(an) + len(bn)) % 3 == 0 or tier == 'thorough':
                         yield dict(z=z, a=an, b=bn, via='persist')
         # the iterator of the abandoned previous connection is still alive when connect() is called again
@@ -163,6 +166,8 @@ def cases(tier, seed, i, n):
                 for bn in B:
                     for at in (-1, 0, 1, 2, 3, 5):
                         yield dict(z=z, a=an, b=bn, via='connect', stale_at=at)
+        for call2 in ('send_text', 'send_binary', 'close'):
+            yield dict(kind='stuck-sender', call2=call2)
         rnd = random.Random(seed * 523 + 17)
         for _ in range(600 if tier == 'quick' else 200000):
             z = rnd.random() < 0.5
@@ -205,7 +210,7 @@ def observe_b(run, w, z):
     return dict(events=evs, end=run.end, frames=frames, npolls=run.names.count('poll')), key
 
 
-def run_one(ws, h, z, seg=None, abandon=None, keep_open=False, stale=None):
+def run_one(ws, h, z, seg=None, abandon=None, keep_open=False, stale=None, via_iter=False):
     """stale = (generator, its world, point): finalise that older iterator at `point` of this connection"""
     spec = world_for(h, z, seg)
     w = H.World(lambda _i: simnet.ScriptServer(spec['steps']), gai_error=spec['gai'], horizon=spec['horizon'],
@@ -232,7 +237,7 @@ def run_one(ws, h, z, seg=None, abandon=None, keep_open=False, stale=None):
                 finalise()
             inner(ws_, ev, idx, run_)
     run = H.drive(w, ws=ws, ws_kwargs=dict(compress=bool(z), proxies=PROXIES), connect_kwargs=ckw_of(h),
-                  policy=policy, stop_after=abandon, pre_iter=pre_iter)
+                  policy=policy, stop_after=abandon, pre_iter=pre_iter, via_iter=via_iter)
     if stale is not None:
         run.stale_finalised = bool(done)
         finalise()
@@ -251,7 +256,85 @@ def run_one(ws, h, z, seg=None, abandon=None, keep_open=False, stale=None):
     return run, w
 
 
+def run_stuck_sender(case, acc):
+    """A worker thread is stuck for ever inside a (compressed) send on connection 1 - its peer stopped reading -
+    when the application gives that connection up and connects the same object again.  Connection 2 starts from a
+    clean slate: nothing it needs (locks included) is still held by the stuck call.  Runs under the controlled
+    scheduler so that "stuck" is a logical state."""
+    from .. import sched, schedlock
+    zhs = dict(extra=[('Sec-WebSocket-Extensions', 'permessage-deflate')])
+
+    def factory(i):
+        return simnet.ScriptServer([('hs', zhs), ('at', 2.0), ('raw', F(1, b'hello from %d' % i))])
+
+    call2 = case['call2']
+    with sched.InstalledShim():
+        w = H.World(factory, split_send=True, horizon=50.0, stop_at=50.0)
+        with simnet.Installed(w):
+            ws = env.WebSocket('ws://example.com/', compress=True, proxies={})
+            g1 = ws.connect(session_class=simnet.SimSession, ping_rate=0, poll=5.0)
+            for ev in g1:
+                if ev.name == 'poll':
+                    break
+            s = sched.Scheduler(files=sched.WRITE_PATH_FILES)
+            stuck = schedlock.SchedLock(False)
+            stuck.owner = 'never-released'
+            st = {'a_in_write': False, 'b_done': None, 'events2': []}
+
+            def hook(tag):
+                if s.current is not None and s.current.name == 'A':
+                    st['a_in_write'] = True
+                    s.current.blocked_on = stuck       # the peer of connection 1 stopped reading
+                    s.switch_away()
+                else:
+                    s.yield_point(tag)
+            w.yield_hook = hook
+
+            def thread_a():
+                ws.send_text('stalled on connection one ' * 8)
+
+            def thread_b():
+                # give connection 1 up (its iterator stays referenced), connect again, use connection 2
+                g2 = ws.connect(session_class=simnet.SimSession, ping_rate=0, poll=5.0)
+                st['g2'] = g2
+                try:
+                    for ev in g2:
+                        st['events2'].append(ev.name)
+                        if ev.name == 'poll':
+                            break
+                    if call2 == 'send_text':
+                        ws.send_text('on connection two ' * 4)
+                    elif call2 == 'send_binary':
+                        ws.send_binary(b'two' * 30)
+                    else:
+                        ws.close(1000, 'two')
+                    st['b_done'] = 'returned'
+                except env.lerrors.WebSocketError as e:
+                    st['b_done'] = 'raised %r' % (e,)
+                except (StopIteration, simnet.Quiesced):
+                    st['b_done'] = 'ended'
+
+            s.spawn('A', thread_a)
+            s.spawn('B', thread_b)
+            s.run(first=0, timeout=20.0)
+    acc.count2('oracle', 'stuck_sender_runs')
+    detail = dict(a_reached_write=st['a_in_write'], b=st['b_done'], events2=st['events2'], deadlock=s.deadlock, hung=s.hung)
+    if s.hung:
+        acc.inconclusive.append('stuck-sender run: scheduler watchdog %r' % (detail,))
+        return
+    if not st['a_in_write']:
+        acc.inconclusive.append('stuck-sender run: thread A never reached the socket write %r' % (detail,))
+        return
+    if st['b_done'] != 'returned':
+        acc.violation('call-on-the-new-connection-blocked-behind-a-send-stuck-on-the-previous-one',
+                      'C17: %s on connection 2 while a send is stuck on connection 1' % call2, case, detail)
+    else:
+        acc.cls('stuck-sender/%s' % call2)
+
+
 def run_case(case, acc):
+    if case.get('kind') == 'stuck-sender':
+        return run_stuck_sender(case, acc)
     z = case['z']
     A = a_histories(z)
     B = b_histories(z)
@@ -269,7 +352,8 @@ def run_case(case, acc):
 
 def _run_pair(case, acc, z, A, B, chain, hb, seg):
     # reference: B alone on a fresh object
-    ref_run, ref_w = run_one(None, hb, z, seg)
+    it = case['via'] == 'iter'
+    ref_run, ref_w = run_one(None, hb, z, seg, via_iter=it)
     ref_obs, ref_key = observe_b(ref_run, ref_w, z)
     keys = []
     if case.get('stale_at') is not None:
@@ -286,14 +370,14 @@ def _run_pair(case, acc, z, A, B, chain, hb, seg):
             acc.violation('stale-iterator-finalised-but-its-own-socket-left-open', 'C17: A=%s B=%s stale_at=%s' % (an, case['b'], case['stale_at']),
                           case, dict(a_events=ra.names))
             return
-    elif case['via'] == 'connect':
+    elif case['via'] in ('connect', 'iter'):
         ws = None
         for an in chain:
-            ra, wa = run_one(ws, A[an], z, seg, abandon=A[an].get('abandon'))
+            ra, wa = run_one(ws, A[an], z, seg, abandon=A[an].get('abandon'), via_iter=it)
             ws = ra.ws
             if wa.conns:
                 keys.append(refhttp.request_key(bytes(wa.conns[0].tx)))
-        rb, wb = run_one(ws, hb, z, seg)
+        rb, wb = run_one(ws, hb, z, seg, via_iter=it)
         obs, kb = observe_b(rb, wb, z)
     else:
         obs, kb, keys = via_persist(chain, A, hb, z, seg, acc)
